@@ -40,7 +40,7 @@ func getTypeInfo(t reflect.Type) *theTypeInfo {
 		}
 
 		// Add fields
-		typeInfo.Fields = appendFields(nil, nil, t)
+		typeInfo.Fields = dominantFields(appendFields(nil, nil, t))
 
 		// Sort fields
 		sort.Sort(sortableFieldInfos(typeInfo.Fields))
